@@ -491,7 +491,7 @@ func faultMonitor(k *FaultCase, r *FaultRun, add func(sig, dem, obs string)) {
 			durable = append([]tracked{}, live...)
 		}
 		accounts(k, fo.Mem, live, "memory", ctx, false, add)
-		accounts(k, fo.Disk, durable, "state file", ctx, true, add)
+		accounts(k, fo.Disk, durable, "state-file", ctx, true, add)
 	}
 }
 
